@@ -15,6 +15,12 @@ CACHE_MODEL = ["model/Bytes.v", "model/Errors.v", "model/CacheModel.v", "corr/Co
 
 FSCRASH_MODEL = ["gen/Consts.v", "model/Bytes.v", "model/Errors.v", "model/FsCrash.v", "corr/CorrBase.v", "corr/FsCrashCorr.v"]
 
+ASM_MODEL = ["gen/Consts.v", "model/Bytes.v", "model/Errors.v", "model/Codec.v", "corr/CorrBase.v", "corr/CodecCorr.v",
+             "model/AsmModel.v", "corr/AsmCorr.v"]
+
+NAV_MODEL = ["gen/Consts.v", "model/Bytes.v", "model/Errors.v", "model/CacheModel.v", "model/StateModel.v",
+             "model/NavModel.v", "proofs/BytesProofs.v", "proofs/NavProofs.v", "corr/CorrBase.v", "corr/NavCorr.v"]
+
 PROPS = {
     "C09": {
         "prop_file": "props/C09.v",
@@ -69,5 +75,41 @@ PROPS = {
                         "session keys contain no '/' (path.Join is then plain concatenation; the '/' traversal is the recorded C11 fs finding) and the session key does not start with '.tmp-' (see findings)"],
         "trusted_extra": ["strace (system call log of the child process) and the driver's abstraction of its output into fsops (fscrash.go: fcAbstract)"],
         "widen_n": 120,
+    },
+    "C16": {
+        "prop_file": "props/C16.v",
+        "files": ["proofs/BytesProofs.v", "proofs/CodecProofs.v", "proofs/AsmProofs.v", "props/C16.v"],
+        "model_files": ASM_MODEL,
+        "drivers": [{"name": "asm", "n_quick": 600, "n_thorough": 6000}],
+        "rule": "token-level sources (opcode word + argument texts per line) printed with generator-chosen blanks/tabs, trailing comments, CRLF and empty lines, "
+                "assembled by the real asm.Parse under recover(); fixed corpus (one witness per finding class, every instruction form and the five batch-expansion "
+                "examples of instructions.texi, the never-reset batcher, NOOP, empty source) + the 55 example sources /repo/examples/*/*.vis + a finite sweep of the selector "
+                "position (all strings of length <= 2, thorough <= 3, over {0,1,8,a,B,_,*} in INCMP/MOUT/DOWN/UP) + 2/3 documented-form sources (0-4 plain lines over all 12 "
+                "documented opcode words followed by 0-3 batch lines over DOWN/UP/NEXT/PREVIOUS; selector classes digits/letters/mixed/leading zeros/digit prefix/*/upper case; "
+                "numbers from {0,1,7,8,255,256,65535,65536,2^24-1,2^24,2^31,2^32-1,2^32,2^64}, leading-zero forms and random uint32; symbols of 1..12, 254, 255, 256, 300 bytes) "
+                "+ 1/3 adversarial sources (any word incl. NOOP and unknown words, 0-5 arguments of any class incl. junk characters, batch blocks anywhere and repeated); "
+                "compared: bytes written to the writer (also those written before an error/panic) and the ending Ok/Err/Panic; trivial = the empty source; distinct by token-level source",
+        "assumptions": ["the participle lexer/grammar and strconv.ParseUint(s, 0, bits) are modelled (first-match rule order, five greedy optional Arg slots, base-0 conversion), not verified; tied by the correspondence only",
+                        "argument texts contain no blank, CR, LF or '#' (they are what the printer separates); layout the real parser rejects (leading empty line, missing final newline, comment-only or blank-only line) is probed and counted, not modelled",
+                        "flag-name preprocessing (asm/flag.go, dev/asm/main.go processor) runs before asm.Parse and is not modelled; examples/preprocessor/root.vis needs it and is rejected by asm.Parse alone (model agrees: Err)",
+                        "math.Log2 in asm.numSize modelled as in C14"],
+        "widen_n": 3000,
+    },
+    "C04": {   # component half; extend "files"/"drivers" with the engine half
+        "prop_file": "props/C04nav.v",
+        "files": ["proofs/BytesProofs.v", "proofs/NavProofs.v", "props/C04nav.v"],
+        "model_files": NAV_MODEL,
+        "drivers": [{"name": "nav", "n_quick": 300, "n_thorough": 3000}],
+        "rule": "sequences of 1-30 (thorough: 1-60) applyTarget calls on a real state.State + cache.Cache: targets from 10 node names (incl. _catch, digit-leading, "
+                "repeated names so that descents into the current node happen), the five control tokens, and malformed strings (empty, one letter, a-b, _x, .., 0xFF, LF, +ab, "
+                "random 1-3 bytes over a hostile alphabet); started from the empty state, from stacks of depth 1-6, from depth 124-131 (crossing MaxLevel), from SizeIdx "
+                "65532-65535 (crossing the uint16 wrap), with cache depths that do not match the stack (adversarial stream), lateral-heavy; 12 fixed corpus cases first. "
+                "After every call: returned symbol and index, nil/IndexError/other error/panic, ExecPath, SizeIdx, cache Levels(), Code, Flags compared with the model. "
+                "Plus all strings up to length 3 (thorough: 4) over {+ _ . LF 0xFF ^ > < a Z 0 -} and 20 fixed strings against inputRegex/symRegex/ctrlRegex (compiled from "
+                "the exported pattern strings), vm.ValidInput, vm.ValidSym and vm.valid; non-trivial = at least 2 calls; distinct by full case term",
+        "assumptions": ["the cache has at least one frame (cache.NewCache and every cache operation guarantee it; CacheProofs.CInv contains it)",
+                        "no custom input validator registered (vm.RegisterInputValidator): valid_input_b models the default pattern only",
+                        "State.Moves and State.lastMove are not part of StateModel and are not compared"],
+        "widen_n": 1500,
     },
 }
